@@ -163,7 +163,7 @@ def _wkey(form, w, n):
     """What the weekday argument denotes: None, or (weekday, n with absent == 1)."""
     if form == "none":
         return None
-    return (w, n if form == "obj" else 1)
+    return (w, (n if n != 0 else 1) if form == "obj" else 1)
 
 
 def h_pair(form_a, form_b, wmax=6, fgroup="rel"):
@@ -178,7 +178,7 @@ def h_pair(form_a, form_b, wmax=6, fgroup="rel"):
         for f, w, n in ((form_a, wa, na), (form_b, wb, nb)):
             ctx.assume((0 <= w) & (w <= (0 if f == "none" else wmax)))
             if f == "obj":
-                ctx.assume((-2 <= n) & (n <= 2) & (n != 0))
+                ctx.assume((-2 <= n) & (n <= 2))          # n == 0 is accepted by relativedelta's weekday and means "absent"
             else:
                 ctx.assume(n == 1)
         ctx.assume(0 <= fi < len(fields))
@@ -314,6 +314,39 @@ def h_eq_add(y, m, dd):
     return fn, types
 
 
+# ---------------------------------------------------------------- cell: half-integer day/hour/minute fields (exact in binary floating point)
+def h_float_half(field):
+    """A relative field of the form n + 0.5 (exactly representable): carries must preserve the total.  The value is
+    pinned per path (floating point is not modelled symbolically), the other fields are small symbolic ints."""
+    from dateutil.relativedelta import relativedelta
+    from fractions import Fraction
+    types = dict(n=int, other=int)
+    unit = dict(days=86400, hours=3600, minutes=60, seconds=1)
+
+    def fn(ctx, n, other):
+        ctx.assume(-80 <= n <= 80)
+        ctx.assume(-3 <= other <= 3)
+        n, other = ctx.concrete(n), ctx.concrete(other)
+        with ctx.untraced():
+            v = n + 0.5
+            kw = {field: v}
+            lower = dict(days="hours", hours="minutes", minutes="seconds", seconds="microseconds")[field]
+            kw[lower] = other * 40
+            d = relativedelta(**kw)
+            tot_in = Fraction(v) * unit[field] + Fraction(kw[lower]) * (unit.get(lower, Fraction(1, 10 ** 6)))
+            tot_out = (Fraction(d.days) * 86400 + Fraction(d.hours) * 3600 + Fraction(d.minutes) * 60 + Fraction(d.seconds) +
+                       Fraction(d.microseconds, 10 ** 6))
+            ctx.check(tot_in == tot_out, "carry of a fractional %s field changed the total duration" % field, key="float-total-" + field)
+            nd = d.normalized()
+            tot_n = (Fraction(nd.days) * 86400 + Fraction(nd.hours) * 3600 + Fraction(nd.minutes) * 60 + Fraction(nd.seconds) +
+                     Fraction(nd.microseconds, 10 ** 6))
+            ctx.check(tot_n == tot_in, "normalized() changed the total duration", key="float-normalized-" + field)
+            ctx.check(all(isinstance(getattr(nd, a), int) or float(getattr(nd, a)).is_integer() for a in ("days", "hours", "minutes", "seconds", "microseconds")),
+                      "normalized() left a fractional field", key="float-normalized-int")
+        return None
+    return fn, types
+
+
 # ---------------------------------------------------------------- cell: non-integer years/months rejected (concrete .5 values)
 def h_nonint():
     from dateutil.relativedelta import relativedelta
@@ -361,6 +394,8 @@ def cells(tier):
     for (y, m, dd) in ((2024, 2, 29),) if q else ((2024, 2, 29), (1999, 12, 31), (2100, 3, 1), (1, 1, 31), (9999, 11, 30)):
         cs.append(Cell(M, "h_eq_add", dict(y=y, m=m, dd=dd), budget_s=120 * B))
     cs.append(Cell(M, "h_nonint", {}, budget_s=60))
+    for f in ("days", "hours", "minutes", "seconds"):
+        cs.append(Cell(M, "h_float_half", dict(field=f), budget_s=120))
     return cs
 
 
@@ -373,7 +408,7 @@ ASSUMPTIONS = [
 ]
 BOUNDS = dict(relative_field_abs_max=BIG, scalar_field_abs_max=10 ** 9, scalars="see cells",
               weekday_forms="int, MO..SU, weekday(w,n) n in {-2,-1,1,2,None}")
-OUTSIDE = ["float day/hour/... fields and normalized()'s rounding cascade (floating point)",
+OUTSIDE = ["float fields other than half-integers (the half-integer cells pin their value per path and run natively: floating point is not modelled symbolically)",
            "non-integer scalars for * and /, scalars other than the listed cells",
            "relative fields beyond the stated magnitudes"]
 
